@@ -195,10 +195,17 @@ class Run:
                 owner, attr, is_list = ls[self.step % len(ls)]
                 oh = self.R(owner, 0)
                 self.stats["handle_via_link"] += 1
-                if is_list:
-                    h = getattr(oh, attr)[m.id]
-                else:
-                    h = getattr(oh, attr)
+                try:
+                    if is_list:
+                        h = getattr(oh, attr)[m.id]
+                    else:
+                        h = getattr(oh, attr)
+                    hid = h.id
+                except Exception as e:  # noqa
+                    self.violation("lookup_failed", k, "link:%s:%s" % (attr, type(e).__name__),
+                                   "%s.%s -> %r" % (owner.kind, attr, e))
+                if hid != m.id:
+                    self.violation("lookup_wrong_entity", k, "link:" + attr, "got %s expected %s" % (hid, m.id))
                 self.remember(m, h)
                 return h
             via = 1
@@ -206,16 +213,26 @@ class Run:
         cont = getattr(parent, self.CONT[k])
         sib = self.siblings(m)
         pos = next(i for i, x in enumerate(sib) if x is m)
-        if via in (0, 6) and (k == "feature" or looks_like_uuid(m.name)):
+        if via in (0, 6) and (k == "feature" or (self.profile.masked("uuid_like_names")
+                                                   and looks_like_uuid(m.name))):
             via = 1
-        if via in (0, 6):
-            h = cont[m.name]
-        elif via in (1, 7):
-            h = cont[m.id]
-        elif via == 2:
-            h = cont[pos]
-        else:
-            h = cont[pos - len(sib)]
+        try:
+            if via in (0, 6):
+                key = m.name
+            elif via in (1, 7):
+                key = m.id
+            elif via == 2:
+                key = pos
+            else:
+                key = pos - len(sib)
+            h = cont[key]
+            hid = h.id
+        except Exception as e:  # noqa
+            self.violation("lookup_failed", k, "via%d:%s" % (via, type(e).__name__),
+                           "%s[%r] raised %r" % (self.CONT[k], key, e))
+        if hid != m.id:
+            self.violation("lookup_wrong_entity", k, "via%d" % via,
+                           "%s[%r] returned id %s, expected %s" % (self.CONT[k], key, hid, m.id))
         self.remember(m, h)
         return h
 
